@@ -64,6 +64,9 @@ POOL = [
     (";", 0),
     ("__attribute__((unused)) static int ga{i};", 0),
     ("struct W{i} {{ struct {{ int x; }} s; struct {{ int y; }} t; }} w{i};", 2),
+    ("void fac{i}(auto const x, const auto *y);", 0),
+    ("void fap{i}(auto x, auto y);", 0),
+    ("static inline constexpr volatile int spec{i} = 0;", 0),
 ]
 CLASS_POOL = [
     ("int a{i};", 0), ("static const int b{i} = 1;", 0), ("void f{i}() const;", 0), ("K();", 0), ("~K() {{}}", 0), ("virtual void v{i}() = 0;", 0),
@@ -72,6 +75,7 @@ CLASS_POOL = [
     ("friend class G{i};", 0), ("friend void h{i}();", 0), ("public:", 0), ("private:", 0), ("protected:", 0), ("static_assert(true);", 0),
     ("operator int();", 0), ("int bf{i} : 3;", 0), ("/// doc {i}\nint doc{i};", 0), ("[[nodiscard]] int at{i}();", 0), ("K(const K&) = delete;", 0),
     ("int l{i} = 1, m{i} {{2}};", 0), ("typedef struct {{ int t; }} TS{i};", 1),
+    ("void mac{i}(auto volatile x) const;", 0), ("void map{i}(auto x);", 0), ("mutable int mu{i};", 0), ("explicit K(int e{i});", 0),
 ]
 CTX = [("global", "{X}"), ("namespace", "namespace W {{\n{X}\n}}"), ("extern", "extern \"C++\" {{\n{X}\n}}"), ("nested-ns", "namespace W::V {{\n{X}\n}} int tail;")]
 CLASS_CTX = [("struct", "struct K {{\n{X}\n}};"), ("class", "class K {{\n{X}\n}};"), ("nested", "namespace W {{ struct O {{ private: struct K {{\n{X}\n}}; int o; }}; }}")]
@@ -174,17 +178,68 @@ def merge(a, b):
     return a
 
 
+BASEFILE = None  # pickle {source: ParsedData} computed in fresh interpreters (one per pool item) before the exploration starts
+_BASE = None
+_FRESH_SCRIPT = ("import sys, pickle\nfrom cxxheaderparser.simple import parse_string\nsrcs = pickle.load(sys.stdin.buffer)\nout = {}\n"
+                 "for s in srcs:\n    try:\n        out[s] = parse_string(s)\n    except Exception as e:\n        out[s] = 'ERR ' + str(e)\n"
+                 "pickle.dump(out, sys.stdout.buffer)\n")
+
+
+def fresh_parse(srcs):
+    """parse each source in ONE fresh interpreter (sources of the same pool item only): {source: ParsedData | 'ERR ...'}"""
+    import pickle
+    import subprocess
+    import sys
+
+    r = subprocess.run([sys.executable, "-c", _FRESH_SCRIPT], input=pickle.dumps(list(srcs)), capture_output=True, timeout=300)
+    if r.returncode != 0:
+        raise HarnessError(f"fresh-interpreter baseline failed: {r.stderr[-300:]!r}")
+    return pickle.loads(r.stdout)
+
+
+def compute_baselines():
+    """every pool item in every context, each item in its own fresh interpreter (16 at a time)"""
+    from concurrent.futures import ThreadPoolExecutor
+
+    groups = []
+    for pool_, ctxs in ((POOL, CTX), (CLASS_POOL, CLASS_CTX)):
+        for t, _ in pool_:
+            groups.append([c[1].format(X=t.format(i=i)) for c in ctxs for i in (1, 2)])
+    out = {}
+    with ThreadPoolExecutor(16) as ex:
+        for d in ex.map(fresh_parse, groups):
+            out.update(d)
+    return out
+
+
+def base(src):
+    """the result of parsing `src` in an interpreter that has parsed nothing else"""
+    global _BASE
+    if _BASE is None:
+        _BASE = {}
+        if BASEFILE:
+            import pickle
+
+            with open(BASEFILE, "rb") as f:
+                _BASE = pickle.load(f)
+    if src not in _BASE:
+        _BASE.update(fresh_parse([src]))
+    v = _BASE[src]
+    if isinstance(v, str):
+        raise HarnessError(f"pool snippet does not parse alone: {src!r}: {v}")
+    return copy.deepcopy(v)
+
+
 def pair_judge(ctx, A, B, class_ctx=False):
     from cxxheaderparser.simple import parse_string
     from cxxheaderparser.errors import CxxParseError
 
     global MERGE_CLASS
     sa, sb = A[0].format(i=1), B[0].format(i=2)
-    try:
-        da = parse_string(ctx[1].format(X=sa))
-        db = parse_string(ctx[1].format(X=sb))
-    except CxxParseError as e:
-        raise HarnessError(f"pool snippet does not parse alone in context {ctx[0]}: {e}")
+    # parse(A) and parse(B) come from fresh interpreters: state shared between parses (class attributes, shared result
+    # objects) cannot make both sides of the law wrong in the same way
+    da = base(ctx[1].format(X=sa))
+    db = base(ctx[1].format(X=sb))
     try:
         dab = parse_string(ctx[1].format(X=sa + "\n" + sb))
     except CxxParseError as e:
@@ -193,8 +248,6 @@ def pair_judge(ctx, A, B, class_ctx=False):
         # the access specifier in force is state *of the class*, so a specifier in A legitimately affects B: compare with B parsed after the specifier
         acc = {"public:": "public", "private:": "private", "protected:": "protected"}.get(sa)
         if acc:
-            db = parse_string(ctx[1].format(X=sa + "\n" + sb))
-            da = parse_string(ctx[1].format(X=sa))
             # members of A alone (none) + members of "A B" must equal "A B": trivially true; check instead that B's members carry acc
             got = [m for m in _members(dab, ctx) if hasattr(m, "access")]
             if any(m.access != acc for m in got):
@@ -383,12 +436,31 @@ def run(tier):
         ("h_equiv", [(a,) for a in range(len(EQUIVS))], "scope equivalences for every pool form"),
     ]
     results = {}
+    import os
+    import pickle
+    import shutil
+    import tempfile
+    import time
+
+    t0 = time.time()
+    tmpd = tempfile.mkdtemp(prefix="vfc12_")
+    basefile = os.path.join(tmpd, "base.pkl")
+    bl = compute_baselines()
+    bad_base = [k for k, v in bl.items() if isinstance(v, str)]
+    if bad_base:
+        shutil.rmtree(tmpd, ignore_errors=True)
+        raise HarnessError(f"pool snippet does not parse alone: {bad_base[0]!r}: {bl[bad_base[0]]}")
+    with open(basefile, "wb") as f:
+        pickle.dump(bl, f)
+    globals().update(BASEFILE=basefile, _BASE=None)
+    ck.traces += len(bl)
+    ck.sub("baselines: every pool form in every context parsed alone, each form in its own fresh interpreter", "setup", "holds", sources=len(bl), wall_s=round(time.time() - t0, 1))
     pool = chrun.make_pool()
     try:
         for name, shards, label in plan:
-            tw = chrun.run(__name__, name, [shards[0]], timeout=60, globs=dict(TWIN=True), pool=pool)
+            tw = chrun.run(__name__, name, [shards[0]], timeout=60, globs=dict(TWIN=True, BASEFILE=basefile), pool=pool)
             chrun.record(ck, tw, f"{name} reachability twin", expect="refuted")
-            r = chrun.run(__name__, name, shards, timeout=(150 if tier == "quick" else 900), pool=pool)
+            r = chrun.run(__name__, name, shards, timeout=(150 if tier == "quick" else 900), globs=dict(TWIN=False, BASEFILE=basefile), pool=pool)
             chrun.record(ck, r, label)
             results[name] = r
     finally:
@@ -406,19 +478,39 @@ def run(tier):
         return f"{eq[0]} with {A[0].format(i=1)!r}", equiv_judge(eq, A)
 
     globals()["_rep"] = rep
+    # every candidate is replayed in a fresh interpreter (the pair alone, nothing parsed before): a worker that parsed other
+    # pairs earlier may carry state leaked by those, so a candidate that does not reproduce alone is only counted
+    tot_repro, all_stale = 0, []
     for name in ("h_pairs", "h_cpairs", "h_equiv"):
-        seen = set()
-        for shard, args, kw, msg in results[name].counterexamples:
+        reproduced, stale = 0, []
+        from concurrent.futures import ThreadPoolExecutor
+
+        cands = []
+        for shard, args, kw, msg in results[name].counterexamples[:400]:
             vals = list(shard) + list(args)
-            what, bad = rep(name, vals)
-            ck.traces += 1
-            if bad is None:
-                raise HarnessError(f"{name} counterexample did not reproduce: {msg} ({what})")
-            if (bad[:40]) in seen and len(seen) > 6:
-                continue
-            seen.add(bad[:40] + what[:30])
             body = ("from vf.props import c12\n" f"what, bad = c12.replay_named({name!r}, {vals!r})\nprint(what); print(bad)\nsys.exit(1 if bad else 0)\n")
-            ck.violation(f"{bad} - {what}", ck.write_replay(body), key=dict(kind=name, what=bad[:40]))
+            cands.append((vals, msg, ck.write_replay(body)))
+        with ThreadPoolExecutor(16) as ex:
+            outs = list(ex.map(lambda c: ck.run_replay(c[2]), cands))
+        for (vals, msg, pth), (ok, out) in zip(cands, outs):
+            ck.traces += 1
+            if not ok or reproduced >= 12:
+                if not ok:
+                    stale.append((vals, msg))
+                os.unlink(pth)
+                continue
+            reproduced += 1
+            lines = out.strip().splitlines()
+            what, bad = (lines[0], lines[-1]) if len(lines) >= 2 else ("?", out.strip()[-200:])
+            ck.violation(f"{bad} - {what}", pth, key=dict(kind=name, what=bad[:40]))
+        tot_repro += reproduced
+        if stale:
+            all_stale.append((name, len(stale), stale[0]))
+            ck.extra.setdefault("history_dependent_candidates", {})[name] = len(stale)
+    shutil.rmtree(tmpd, ignore_errors=True)
+    if all_stale and not tot_repro:
+        raise HarnessError(f"counterexamples that do not reproduce in a fresh interpreter and none that does: {all_stale}")
+    globals().update(BASEFILE=None, _BASE=None)
     for shard, args, kw, msg in results["h_ind"].counterexamples[:6]:
         anon0 = kw.get("anon0", args[0] if args else 0)
         body = ("from vf.props import c12\nfrom vf import chrun\n" f"chrun.set_prefix({tuple(shard)!r})\nok = c12.h_ind({anon0!r}, *{list(args[1:])!r})\nprint(ok)\nsys.exit(0 if ok else 1)\n")
